@@ -122,6 +122,7 @@ def Err.ofSeq : Seq.Err → Err
   | .key => .key | .index => .index | .zeroDiv => .zeroDiv | .type => .type
   | .stopIteration => .stopIteration | .value => .value
   | .attribute => .outOfDomain | .sortMixed => .outOfDomain | .outOfDomain => .outOfDomain
+  | .ambiguous => .outOfDomain | .tooLarge => .outOfDomain | .wrappedStop => .outOfDomain | .unknownMethod => .outOfDomain      -- (option-dependent behaviour: Model/SeqRun.lean `Opts`)
 
 def liftSeq (x : Seq.R α) : R α :=
   match x with
